@@ -210,6 +210,13 @@ def _split_raise_test(t: ast.AST, pol: bool):
         for v in t.values:
             out += _split_raise_test(v, pol)
         return out
+    if isinstance(t, ast.Compare) and len(t.ops) > 1 and not pol:
+        # not (a <= b <= c)  ==  not (a <= b)  or  not (b <= c)
+        out = []
+        operands = [t.left] + list(t.comparators)
+        for i, op in enumerate(t.ops):
+            out += _split_raise_test(ast.copy_location(ast.Compare(left=operands[i], ops=[op], comparators=[operands[i + 1]]), t), pol)
+        return out
     if isinstance(t, ast.Call) and isinstance(t.func, ast.Name) and t.func.id in ("all", "any") and len(t.args) == 1 and \
             isinstance(t.args[0], (ast.GeneratorExp, ast.ListComp)) and (t.func.id == "all") != pol:
         g = t.args[0]
